@@ -308,6 +308,18 @@ def run_cases(ctx, binp, prop, shards=8, extra=None, budget_s=900):
             elif l and not l.startswith("#"):
                 a, b = l.split("\t", 1)
                 gores[int(a)] = b
+    # a HANG / CRASH seen under load is re-checked alone with a 10x time limit before it is believed
+    suspicious = [i for i in sorted(gores) if gores[i].startswith(("HANG", "CRASH"))][:40]
+    for i in suspicious:
+        try:
+            p = subprocess.run([binp, prop, "-tmult", "10", "-one", cases[i]] + extra, cwd=ctx.work, env=GOENV,
+                               stdout=subprocess.PIPE, stderr=subprocess.STDOUT, text=True, errors="replace", timeout=600)
+            lines = [l for l in p.stdout.splitlines() if l.strip()]
+            if p.returncode == 0 and lines and not lines[0].startswith(("HANG", "PANIC")):
+                stats["rechecked_alone_ok"] = stats.get("rechecked_alone_ok", 0) + 1
+                gores[i] = lines[0]
+        except subprocess.TimeoutExpired:
+            pass
     return cases, gores, stats, results
 
 
@@ -444,10 +456,17 @@ def standard(ctx, spec):
         model = {}
     known, _ = load_known()
     dec = spec.get("decode", lambda p: p)
-    bad, kf_hits, nontrivial = [], {}, set()
+    bad, kf_hits, nontrivial, outside = [], {}, set(), 0
     for i in sorted(cases):
         g = gores.get(i, "MISSING-RESULT")
         m, attrs = model.get(i, ("MISSING-MODEL-RESULT", {}))
+        if m.startswith("UNSUP") or attrs.get("skip") == "1":
+            # the case is outside the model (stated by the model itself): not compared, but a
+            # crash / hang / panic of the real code is still a violation of any property here
+            outside += 1
+            if g.startswith(("CRASH", "PANIC", "HANG")):
+                bad.append(i)
+            continue
         if attrs.get("nt") == "1":
             nontrivial.add(cases[i])
         if g == m:
@@ -462,6 +481,7 @@ def standard(ctx, spec):
     cov["rule"] = spec.get("rule", "")
     cov["input_distribution"] = stats
     cov["disagreements"] = len(bad)
+    cov["outside_model_not_compared"] = outside
     cov["crashes"] = sum(len(i["crashes"]) for i in infos.values())
     sample_idx = sorted(cases)[:: max(1, len(cases) // 6)][:6]
     cov["samples"] = [{"case": dec(cases[i]), "go": gores.get(i), "model": model.get(i, ("", {}))[0]} for i in sample_idx]
